@@ -94,6 +94,8 @@ func runC02(c *Ctx) {
 	// one are not a prefix of the correct replies
 	checkWriteFailureLatched(c, "R14")
 	checkResponsesAreNeverNil(c, "R15")
+	checkReceivePathDoesNotClose(c, "R16")
+	checkReplyEncodersDoNotRefuse(c, "R17")
 	pos := func(in ssa.Instruction) string { return p.Pos(in.Pos()) }
 	handle := p.Func("handlePacket")
 	worker := p.Func("(*RequestServer).packetWorker")
